@@ -303,6 +303,32 @@ struct AllocM {
 
 pub use crate::hist::Stats;
 
+// count traffic observed through the cfg(triomphe_verif) hook (read-modify-write operations only)
+static RMW_EVENTS: std::sync::atomic::AtomicUsize = std::sync::atomic::AtomicUsize::new(0);
+#[cfg(triomphe_verif)]
+fn rmw_hook(ev: &triomphe::verif_hooks::Event) {
+    use triomphe::verif_hooks::Op;
+    if ev.done && !matches!(ev.op, Op::Load) {
+        RMW_EVENTS.fetch_add(1, std::sync::atomic::Ordering::Relaxed);
+    }
+}
+/// Run `f` and return how many count read-modify-writes it performed (None without the hook).
+fn count_traffic<T>(f: impl FnOnce() -> T) -> (T, Option<usize>) {
+    #[cfg(triomphe_verif)]
+    {
+        let before = RMW_EVENTS.load(std::sync::atomic::Ordering::Relaxed);
+        triomphe::verif_hooks::set_hook(Some(rmw_hook));
+        let r = f();
+        triomphe::verif_hooks::set_hook(None);
+        (r, Some(RMW_EVENTS.load(std::sync::atomic::Ordering::Relaxed) - before))
+    }
+    #[cfg(not(triomphe_verif))]
+    {
+        let _ = &RMW_EVENTS;
+        (f(), None)
+    }
+}
+
 struct W<'s, A: Pay, B: Pay> {
     slots: Vec<Option<Slot<A, B>>>,
     allocs: Vec<AllocM>,
@@ -663,7 +689,19 @@ impl<'s, A: Pay + Send + Sync, B: Pay + Send + Sync> W<'s, A, B> {
         }
         if roll < 52 {
             let slot = self.slots[i].take().unwrap();
-            let (h, how) = shadow::tracked(|| conv2(slot.h, r));
+            let swapish = matches!(slot.h, H2::Swap(_)) || (matches!(slot.h, H2::Thin(_)) && r % 4 == 3);
+            let ((h, how), traffic) = count_traffic(|| shadow::tracked(|| conv2(slot.h, r)));
+            if let (Some(n), false) = (traffic, swapish) {
+                // thin <-> fat <-> protected <-> raw are pure pointer conversions
+                ensure!(
+                    n == 0,
+                    "C10,C04",
+                    "thin",
+                    "conversion {} performed {} read-modify-write operations on the reference count; it must not touch it",
+                    how,
+                    n
+                );
+            }
             self.trace.push(format!("s{} : {}", i, how));
             self.st.counts.bump(&format!("thin.edge:{}", how));
             self.slots[i] = Some(Slot { h, a });
